@@ -33,12 +33,12 @@ AW, CRC, RATE = 5, 2, 1000  # link defaults used throughout (C01 varies them)
 
 # ---------------------------------------------------------------- configuration
 def mk_fc(arc, ard, fr, mode, so, listen, tx_cls="full", rx_cls="full", cost=30):
-    return dict(arc=arc, ard=ard, fr=fr, mode=mode, so=bool(so), listen=bool(listen), tx_cls=tx_cls, rx_cls=rx_cls, cost=cost)
+    return dict(arc=arc, ard=ard, fr=fr, mode=mode, so=so if so == "alt" else bool(so), listen=bool(listen), tx_cls=tx_cls, rx_cls=rx_cls, cost=cost)
 
 
 def fc_id(fc):
     return "%s>%s a%d d%d f%d %s%s%s c%d" % (fc["tx_cls"][0], fc["rx_cls"][0], fc["arc"], fc["ard"], fc["fr"], fc["mode"],
-                                            "+so" if fc["so"] else "", "" if fc["listen"] else " deaf", fc["cost"])
+                                            {False: "", True: "+so", "alt": "+soalt"}[fc["so"]], "" if fc["listen"] else " deaf", fc["cost"])
 
 
 def link_cfg(fc, seed):
@@ -151,7 +151,7 @@ def execute(pack, fc, hist, seed, pid=PID, ch=None, fixed=None, enc="direct"):
     -> dict(viol=(sig, what)|None, outcome, kinds, obs, ncalls)"""
     w, a, ra, b, rb = copy.deepcopy(pack)
     w.activate()
-    mode, so, fr, arc = fc["mode"], fc["so"], fc["fr"], fc["arc"]
+    mode, fr, arc = fc["mode"], fc["fr"], fc["arc"]
     acked = mode in ACKED
     arity = (3 if acked else 2) if fc["listen"] else 1
     los = Losses(ra, arity, enc, ch, fixed, total_attempts(fc, hist))
@@ -178,6 +178,7 @@ def execute(pack, fc, hist, seed, pid=PID, ch=None, fixed=None, enc="direct"):
 
     for i, kind in enumerate(hist):
         ncalls = i + 1
+        so = (i % 2 == 0) if fc["so"] == "alt" else fc["so"]  # 'alt': send_only on the 1st, 3rd call only
         if fc["listen"]:
             b.flush_rx()  # the peer's application has consumed what it received
             if mode == "ackpl":
@@ -436,7 +437,7 @@ def plan(tier, tx_cls="full", rx_cls="full"):
     hs_all = histories(depth)
     hs1 = histories(1)
     hs2 = histories(2)
-    strat = dict(T=8 if quick else 10, K=2 if quick else 3)
+    strat = dict(T=8, K=2) if quick else dict(T=10, K=3, Ktot=32, K2=2)
     modes = [m for m in MODES if not (lite and m == "noaa")]
     items = []
     for arc in ARCS:
@@ -476,6 +477,10 @@ def plan(tier, tx_cls="full", rx_cls="full"):
                                     hs = (hs1 + ["SR", "SS", "RS"] if fr <= 1 else ["S", "SR"]) if ard == 250 else (["S", "SR"] if fr <= 1 else None)
                             if hs:
                                 items.append((mk_fc(arc, ard, fr, mode, so, listen, tx_cls, rx_cls), list(hs)))
+    # send_only alternating between the calls of one history (ACK payloads left in / flushed from the PTX RX FIFO)
+    for arc, fr in ((0, 0), (1, 0), (0, 1), (1, 1)):
+        for ard in (250,) if quick else (250, 1500):
+            items.append((mk_fc(arc, ard, fr, "ackpl", "alt", True, tx_cls, rx_cls), [h for h in (hs2 if quick else hs_all) if len(h) > 1]))
     if True:
         # SPI cost (polling period) classes: 12 us and 100 us on the small configurations
         for cost in (12, 100):
@@ -487,8 +492,10 @@ def plan(tier, tx_cls="full", rx_cls="full"):
         choice="per data transmission of the PTX: delivered | packet lost | ACK lost (binary delivered|lost when no ACK is requested; none when the peer does not listen)",
         history_depth=depth, calls="S=send(p) L=send([p,q]) R=resend(); every sequence up to history_depth unless pruned below; all payloads distinct",
         complete_tree_when="sum over the history of allowed transmissions <= %d (then every loss pattern is enumerated: bound = tree height)" % strat["T"],
-        otherwise="loss-kind switch encoding (choice = change of kind relative to the previous transmission) explored up to %d switches "
-                  "(covers: all lost, all ack-lost, k failures then success for every k, lost-then-ack-lost for every k ...); this applies to all arc=15 configurations" % strat["K"],
+        otherwise="loss-kind switch encoding (choice = change of kind relative to the previous transmission) explored up to %s "
+                  "(covers: all lost, all ack-lost, k failures then success for every k, lost-then-ack-lost for every k ...); this applies to all arc=15 configurations"
+                  % ("%d switches" % strat["K"] if "Ktot" not in strat else
+                     "%d switches when the history allows <= %d transmissions, %d switches beyond" % (strat["K"], strat["Ktot"], strat["K2"])),
         grid="arc {0,1,2,3,15} x ard {250,1500,4000} x force_retry 0..3 x mode {plain auto-ack, ackpl, ask_no_ack, auto-ack off} x send_only x peer {listening, deaf}",
         pruning=[
             "P1 send_only=True only with ACK payloads (quick); thorough adds it for (arc,fr) in {(0,0),(1,1),(3,0)} in the other modes",
@@ -498,6 +505,7 @@ def plan(tier, tx_cls="full", rx_cls="full"):
             "P4 arc=15: " + ("ard=250: {S,R,SR} for fr<=1, {S} for fr>=2; other ard: {S} with fr=0" if quick else
                              "ard=250: {S,L,R,SR,SS,RS} for fr<=1, {S,SR} for fr>=2; other ard: {S,SR} for fr<=1"),
             "P5 deaf peer (single execution per history): arc=15 " + ("depth 1 when fr>1 or ard=4000, else depth 2" if quick else "depth 2 when fr>1 or ard=4000, else depth 3"),
+            "P7 send_only alternating per call (True on the 1st/3rd call): ACK-payload mode, (arc,fr) in {(0,0),(1,0),(0,1),(1,1)}, ard " + ("250" if quick else "{250,1500}") + ", histories of >= 2 calls",
             "P6 SPI cost 30 us; plus 12 us and 100 us on " + ("(arc,fr)=(1,1), ard 250" if quick else "(arc,fr) in {(0,1),(1,1),(1,0),(3,1)} x ard {250,1500}") + " x acked modes, depth 2",
         ],
         tx_cls=tx_cls, rx_cls=rx_cls)
@@ -568,10 +576,10 @@ def run(tier, seed, rep, only=None):
         exhaustive=True,
         rule="E-DFS: for every configuration x call history of the (pruned, see bounds) grid the tree of loss decisions "
              "(one per data transmission of the PTX) is walked by stateless replay on a fresh copy of the configured RF24 pair: "
-             "completely when the history allows <= %d transmissions, otherwise up to %d loss-kind switches. An execution is "
+             "completely when the history allows <= %d transmissions, otherwise up to %s loss-kind switches. An execution is "
              "non-trivial when at least one packet/ACK was lost or the peer is deaf; distinct = distinct (configuration, history, "
              "loss pattern). states = trees + distinct non-trivial executions; transitions = send()/resend() calls executed."
-             % (strat["T"], strat["K"]),
+             % (strat["T"], strat["K"] if "Ktot" not in strat else "%d (<= %d transmissions) / %d" % (strat["K"], strat["Ktot"], strat["K2"])),
         bounds=bounds,
         trusted_base=["vf/sim.py (nRF24L01+ behavioural model: Enhanced ShockBurst retransmission, ACK payloads, MAX_RT, shared air, fault oracle, virtual time)",
                       "vf/ref/esb.py (time bound from the retry configuration)"],
